@@ -23,19 +23,19 @@ theorem atomicWrite_touches (p t : Path) (c : Bytes) (q : Path) :
     ∀ o ∈ atomicWrite p t c, o.touches q = true → q = p ∨ q = t := by
   intro o ho hq
   simp only [atomicWrite, writeFile, List.mem_cons, List.mem_append, List.mem_map, List.not_mem_nil, or_false] at ho
-  rcases ho with (rfl | ⟨b, _, rfl⟩ | rfl) | rfl <;> simp [Op.touches] at hq <;> grind
+  rcases ho with (rfl | rfl | ⟨b, _, rfl⟩ | rfl) | rfl <;> simp [Op.touches] at hq <;> grind
 
 theorem appendFile_touches (p : Path) (c : Bytes) (q : Path) :
     ∀ o ∈ appendFile p c, o.touches q = true → q = p := by
   intro o ho hq
   simp only [appendFile, List.mem_cons, List.mem_append, List.mem_map, List.not_mem_nil, or_false] at ho
-  rcases ho with rfl | ⟨b, _, rfl⟩ | rfl <;> simp [Op.touches] at hq <;> grind
+  rcases ho with rfl | rfl | ⟨b, _, rfl⟩ | rfl <;> simp [Op.touches] at hq <;> grind
 
 theorem writeFile_touches (p : Path) (c : Bytes) (q : Path) :
     ∀ o ∈ writeFile p c, o.touches q = true → q = p := by
   intro o ho hq
   simp only [writeFile, List.mem_cons, List.mem_append, List.mem_map, List.not_mem_nil, or_false] at ho
-  rcases ho with rfl | ⟨b, _, rfl⟩ | rfl <;> simp [Op.touches] at hq <;> grind
+  rcases ho with rfl | rfl | ⟨b, _, rfl⟩ | rfl <;> simp [Op.touches] at hq <;> grind
 
 /-- if every op of `ops` that touches `q` … there is none: frame rule in the "touches ⇒ False" form -/
 theorem execs_frame (ops : List (Op Path)) (q : Path) (h : ∀ o ∈ ops, o.touches q = true → False) (fs : FS Path) :
